@@ -216,6 +216,13 @@ def _c(m, s):
 
 CORPUS = [
     _c("a = 1\n  .type = int\ns\n  .multiple = True\n{\n  b = x\n}\n", ["a = 1\ns { b = y }\ns { b = x }\n"]),
+    # a value that is one quoted backslash, last word of its line, other differences after it: the printed difference
+    # reads back word for word (a quoted lone backslash is no continuation mark)
+    _c("io {\n  separator = \"/\"\n    .type = str\n  n_threads = 1\n    .type = int\n  tag = None\n}\n",
+       ["io {\n  tag = run7\n  n_threads = 4\n  separator = \"\\\\\"\n}\n"]),
+    # empty string versus None, empty list versus default
+    _c("job {\n  title = None\n    .type = str\n  suffix = \"\"\n    .type = str\n  cycles = 1 2\n    .type = ints\n}\n",
+       ["job {\n  title = \"\"\n  suffix = None\n  cycles = \"\"\n}\n"]),
     _c("a = 1\ns\n  .multiple = True\n{\n  b = x\n}\n!d = 0\n", ["a = 2\ns { b = y }\ns { b = x }\nzz = 1\nd = 7\n"]),
     # values spelt non-canonically: equal to the defaults, hence absent from the difference
     _c("d = yes\n  .type = bool\ne = 1.0\n  .type = float\nf = 3*2\n  .type = int\ng = a b\n  .type = str\n",
@@ -326,9 +333,11 @@ class SaveDiff(vlib.Stream):
         return o[0]
 
 
+from cli_streams import CliDiff  # noqa: E402  (the observation point "phil --diff master user")
+
 SPEC = {
     "clusters": ["Idem"],
-    "streams": [Diffs, SaveDiff],
+    "streams": [Diffs, SaveDiff, CliDiff],
     "rule": "the masters and sources of the C07 stream (seeded grammar; canonical and non-canonical spellings of defaults and values: "
             "yes/1/0, 3*2, 1,2, 1.0, unquoted strings, None/Auto, choices by name / star / plus form; .multiple definitions and "
             "scopes with added, repeated and template-equal instances; 30 % of the masters with repeated sibling names); per case 8 "
